@@ -498,8 +498,20 @@ func (c *c18kClient) settingsWord() string {
 }
 
 type c18kStep struct {
-	op *c18kOp // HTTP request, or
-	cl int     // DNS request of client cl (-1: nobody)
+	op   *c18kOp     // HTTP request, or
+	cl   int         // DNS request of client cl (-1: nobody), or
+	edit *c18kClient // client cl is replaced by this version through Storage.Update
+}
+
+// c18kEdited is a new version of client c (same name and identifiers) with
+// other switches and, when init is not nil, another list and schedule.
+func c18kEdited(c *c18kClient, ownSettings, own, flt bool, init *c18kDoc) *c18kClient {
+	n := *c
+	n.ownSettings, n.own, n.filtering = ownSettings, own, flt
+	if init != nil {
+		n.init = init
+	}
+	return &n
 }
 
 // c18kState is what the property says the global value is after the requests
@@ -579,6 +591,14 @@ func c18kRunHistory(t *testing.T, out *vfOut, gf bool, in *c18kDoc, clients []*c
 	for _, c := range clients {
 		note(c.init.ids)
 	}
+	// the versions of the clients: a request of logical client i is judged by
+	// (and handed to the model as) the version current at that step
+	vers := append([]*c18kClient{}, clients...)
+	cur := make([]int, len(clients))
+	edited := make([]bool, len(clients))
+	for i := range cur {
+		cur[i] = i
+	}
 
 	glob := &c18kState{zone: in.zone, ranges: in.ranges, ids: in.ids}
 	var coqSteps []string
@@ -626,11 +646,30 @@ func c18kRunHistory(t *testing.T, out *vfOut, gf bool, in *c18kDoc, clients []*c
 			continue
 		}
 
+		if stp.edit != nil {
+			nv := stp.edit
+			note(nv.init.ids)
+			nbs, berr := nv.init.build()
+			if berr != nil {
+				t.Fatalf("edited client %s: %v", nv.name, berr)
+			}
+			if uerr := st.Update(context.Background(), nv.name, nv.persistent(nbs)); uerr != nil {
+				t.Fatalf("updating client %s: %v", nv.name, uerr)
+			}
+			vers = append(vers, nv)
+			cur[stp.cl] = len(vers) - 1
+			edited[stp.cl] = true
+			desc = append(desc, map[string]any{"req": "Storage.Update", "client": nv.name, "use_global_settings": !nv.ownSettings,
+				"use_global_blocked_services": !nv.own, "filtering_enabled": nv.filtering, "zone": nv.init.zone,
+				"ranges_ns": fmt.Sprint(nv.init.ranges), "ids": nv.init.ids})
+			continue
+		}
+
 		// a DNS request
 		cid, addr := "nobody", netip.AddrFrom4([4]byte{10, 9, 8, 7})
 		var cl *c18kClient
 		if stp.cl >= 0 {
-			cl = clients[stp.cl]
+			cl = vers[cur[stp.cl]]
 			addr = cl.addr
 			cid = cl.cid // "" unless the client is identified by its ClientID
 		}
@@ -772,6 +811,9 @@ func c18kRunHistory(t *testing.T, out *vfOut, gf bool, in *c18kDoc, clients []*c
 			if cl.ownSettings && cl.filtering != gf {
 				classes["req-own-settings-differ"] = true
 			}
+			if edited[stp.cl] {
+				classes["req-after-client-edit"] = true
+			}
 		}
 		if (cl == nil || !cl.own) && afterUpdate {
 			classes["req-after-update"] = true
@@ -801,7 +843,7 @@ func c18kRunHistory(t *testing.T, out *vfOut, gf bool, in *c18kDoc, clients []*c
 		}
 		clCoq := vfOpt("nat", false, "")
 		if stp.cl >= 0 {
-			clCoq = vfOpt("nat", true, vfNat(stp.cl))
+			clCoq = vfOpt("nat", true, vfNat(cur[stp.cl]))
 		}
 		coqSteps = append(coqSteps, vfApp("RReq", clCoq, vfZ(before.UnixNano()), vfList("bytes * Z", offs), c18kCoqIDs(names), vfBool(setts.FilteringEnabled)))
 		desc = append(desc, map[string]any{"req": "dns", "clientid": cid, "addr": addr.String(), "governed_by": who,
@@ -831,7 +873,7 @@ func c18kRunHistory(t *testing.T, out *vfOut, gf bool, in *c18kDoc, clients []*c
 	sort.Strings(cls)
 	var coqClients []string
 	var descClients []map[string]any
-	for _, c := range clients {
+	for _, c := range vers {
 		coqClients = append(coqClients, "("+strings.Join([]string{vfBool(c.ownSettings), vfBool(c.filtering), vfBool(c.own),
 			c18kCoqIDs(c.init.ids), vfBytes(c.init.zone), days(c.init.ranges)}, ", ")+")")
 		descClients = append(descClients, map[string]any{"name": c.name, "found_by": c.by, "clientid": c.cid, "addr": c.addr.String(),
@@ -926,6 +968,23 @@ func TestVerifC18(t *testing.T) {
 			{op: c18kUpdate("no-schedule", "", [7][2]int64{}, []string{b})}, nobody, req(2), req(0)})
 	}
 
+	// the switches of a client flipped while it is being served (what the
+	// clients API does through Storage.Update): the next request follows the
+	// switches as they are then
+	for _, cz := range []string{"Asia/Kolkata", "Etc/GMT+5"} {
+		c0 := c18kMkClient(pr, 0, true, true, cz, "paused", []string{b}, ref)
+		c1 := c18kMkClient(pr, 1, false, false, cz, "active", []string{b}, ref)
+		c2 := c18kMkClient(pr, 2, true, true, cz, "active", []string{a, b}, ref)
+		c0a := c18kEdited(c0, false, true, c0.filtering, nil)   // global settings now, still own services (the clients of C18-I)
+		c0b := c18kEdited(c0a, false, false, c0.filtering, nil) // now the global services too
+		c0c := c18kEdited(c0b, true, true, !c0.filtering, c18kInit(pr, "Pacific/Kiritimati", "active", []string{a}, ref))
+		c1a := c18kEdited(c1, false, true, c1.filtering, c18kInit(pr, cz, "paused", []string{a, b}, ref))
+		c2a := c18kEdited(c2, true, false, c2.filtering, nil)
+		c18kRunHistory(t, out, true, c18kInit(pr, "UTC", "active", []string{a}, ref), []*c18kClient{c0, c1, c2}, []c18kStep{
+			req(0), req(1), req(2), {cl: 0, edit: c0a}, req(0), req(1), {cl: 1, edit: c1a}, req(1), req(0),
+			{cl: 0, edit: c0b}, req(0), {cl: 2, edit: c2a}, req(2), {cl: 0, edit: c0c}, req(0), nobody})
+	}
+
 	// ---- random histories
 	rnd := vfNewRand(out.Seed).Fork(1819)
 	n := out.Scale(70, 1000)
@@ -969,6 +1028,19 @@ func TestVerifC18(t *testing.T) {
 				steps = append(steps, c18kStep{op: c18kSet(c18kRandIDs(r, r.Chance(1, 5)))})
 			case k < 42 || len(cls) == 0:
 				steps = append(steps, nobody)
+			case k < 52:
+				ci := r.Intn(len(cls))
+				last := cls[ci]
+				for _, s0 := range steps {
+					if s0.edit != nil && s0.cl == ci {
+						last = s0.edit
+					}
+				}
+				var ni *c18kDoc
+				if r.Bool() {
+					ni = c18kInit(r, vfPick(r, c18kZones), vfPick(r, c18kModes), c18kRandIDs(r, r.Chance(1, 6)), ref)
+				}
+				steps = append(steps, c18kStep{cl: ci, edit: c18kEdited(last, r.Bool(), r.Bool(), r.Bool(), ni)})
 			default:
 				steps = append(steps, req(r.Intn(len(cls))))
 			}
